@@ -16,7 +16,8 @@ error) and the collector's shape is the modelled one. -/
 theorem source_facts :
     cfgOfSource = { unbuffered := true, abandonCloses := true, cancelOnReturn := true, hsCloses := true } ∧
     Facts.C42.remainFromLen = true ∧ Facts.C42.successReturnsAtOnce = true ∧
-    Facts.C42.singleDialsDirectly = true := by decide
+    Facts.C42.singleDialsDirectly = true ∧
+    Facts.C42.tryDialSelect = [1, 2] ∧ Facts.C42.connectOps = [10, 20, 21, 22, 30, 40] := by decide
 
 theorem good_source : Good cfgOfSource := by unfold Good; decide
 
